@@ -55,4 +55,12 @@ CHECKS = {
         text='Bounded model checking of failed parses on the real code: 3 good statements (symbolic values through constants) with one of 13 fault kinds injected at every position, at include depth 0-2 (in-memory files behind Gin\'s reader interface), with leading blank/comment lines, ambient scope and a finalized config re-opened by unlock_config; the binding store after the failure must equal the prefix applied to a cleared config (for all integer values), scope/lock/parse-context stack restored, exception class preserved, file and line named once per include level, provenance of surviving bindings exact, and the remaining statements parse afterwards as after the prefix alone.',
         note=X_NOTE + ' Interpretations in DESIGN.md section 9 (block-level atomicity of syntactic faults, line of an unknown reference).',
         technique='CrossHair/z3 exhaustive path exploration over fault kind x position x include depth x context with symbolic statement values; reference = re-parse of the prefix'),
+    'C14': dict(
+        text='Bounded model checking on the real code: include trees over 3 in-memory files (4 shapes) with conflicting bindings before, between and after the includes, final value proved to be the last writer of the flattened text for all integer values, returned tree and imports mirrored, config string equal to a parse of the flattened text; file resolution with the existence of the file per (location, reader) as SYMBOLIC booleans returned by the readers\' own existence checks, so the resolution loop itself forks and the first-location/first-reader rule is decided by the solver; the multi-file entry point order (files, bindings, finalize) and the default skip_unknown of all three entry points.',
+        note=X_NOTE + ' Files live behind gin.register_file_reader; real disk files and the package reader are outside.',
+        technique='CrossHair/z3 symbolic execution of parse_config_file resolution loop with symbolic existence checks; exhaustive include-tree/binding placement space with symbolic values'),
+    'C15': dict(
+        text='Bounded exhaustive checking with a solver completeness certificate: every sequence of 3-4 statements from 9 kinds x 8 forms of skip_unknown is parsed by the real code; the binding store must equal the reference obtained by deleting skipped statements (placeholders compared by selector and evaluate), uncovered unknowns raise the same error class as without skipping, known bindings are applied (for all integer values), placeholders raise when used and at finalize.',
+        note=X_NOTE + ' Static registration only; dynamic registration is covered by the C19 fixture harness where stated.',
+        technique='CrossHair/z3 exhaustive path exploration over statement-kind sequences and skip_unknown forms; reference = text deletion model'),
 }
